@@ -404,6 +404,7 @@ class C02(PropBase):
             x["snap"] = x["snap_full"]
             raise Violation(P, "returned-value-mutated", "message #%d changed after it was returned (later deliveries / buffer reuse): was %s, "
                             "is now %s" % (i, _short(x["snap"][i]), _short(now[i])))
+        self._kinds = {m["id"]: m["t"] for m in st.w.init["expected"]} if st.w.init["role"] == "s" else {}
         self._same_end_state(S.real, T.real, x["cands"], st.w.init["role"], "chunked delivery")
         self._sweep(st)
 
@@ -411,7 +412,8 @@ class C02(PropBase):
         if state_name(a) != state_name(b):
             raise Violation(P, "state-differs", "%s leaves state %s, single delivery leaves %s" % (what, state_name(a), state_name(b)))
         for mid in cands:
-            pa, pb = _probe(a, role, mid), _probe(b, role, mid)
+            kind = self._kinds.get(mid)
+            pa, pb = _probe(a, role, mid, kind), _probe(b, role, mid, kind)
             if pa != pb:
                 raise Violation(P, "in-progress-differs", "%s: id %d is %s, after a single delivery it is %s" % (
                     what, mid, "in progress" if pa else "not in progress", "in progress" if pb else "not in progress"))
@@ -509,9 +511,15 @@ def _full(m):
     return out
 
 
-def _probe(sess, role, mid):
+def _probe(sess, role, mid, kind=None):
     cp = copy.deepcopy(sess)
     try:
+        if role == "s" and kind == "SearchRequest" and state_name(cp) == "OPENED":
+            cp.search_result_entry(mid, "", [])
+            return True
+        if role == "s" and kind == "ExtendedRequest" and state_name(cp) == "OPENED":
+            cp.extended_response(mid)
+            return True
         if role == "c":
             data = rfc4511.enc_msg({"t": "BindResponse", "id": mid, "controls": [],
                                     "result": {"code": 14, "matched_dn": "", "diag": ""}, "sasl_creds": None})
